@@ -9681,14 +9681,20 @@ def _write_node(node, xml_tree=None, viewport_transform=None):
         vt = None
         try:
             vt = node.viewbox_transform
+            if not vt and viewport_transform is not None and (node.x or node.y):
+                # A nested svg without a viewBox still positions its content at x, y.
+                vt = "translate(%s, %s)" % (Length.str(node.x), Length.str(node.y))
             if vt:
                 m = Matrix(vt)
                 m.inverse()
                 vt = m
         except ValueError:
             pass
+        if viewport_transform:
+            # Reading the file back applies the viewport transforms of all enclosing svg elements.
+            vt = viewport_transform * vt if vt else viewport_transform
         for child in node:
-            _write_node(child, xml_tree, vt)
+            _write_node(child, xml_tree, vt if vt else Matrix())
     elif isinstance(node, Ellipse):
         xml_tree = subxml(xml_tree, SVG_TAG_ELLIPSE)
         if node.cx is not None:
